@@ -301,11 +301,20 @@ def run(tier: str, only=None) -> int:
                                 continue
                             if moment == "immediately" and (topo != "popen" or model == "gevent"):
                                 continue
+                        else:
+                            # thorough: the full product is ~700 cells; keep every state on every topology and
+                            # exec model, thin out the crossings that add the least
+                            if model == "gevent" and topo not in ("popen", "popen2"):
+                                continue
+                            if timeout == 2.0 and topo in ("via2", "via+popen", "socket"):
+                                continue
+                            if moment == "immediately" and topo in ("via2", "via+popen", "popen2"):
+                                continue
                         P = {"topo": topo, "model": model, "state": state, "timeout": timeout, "moment": moment}
                         if n % 25 == 0:
                             rep.sample({"sub": name, "params": P})
                         n += 1
-                        bounds = {"ps": 1, "free": 1} if (topo == "popen" or tier == "thorough") else {"ps": 0, "free": 1}
+                        bounds = {"ps": 1, "free": 1} if (topo == "popen" or (tier == "thorough" and topo in ("via", "socket"))) else {"ps": 0, "free": 1}
                         harness.run_exploration(rep, PID, name, TermScn, P, bounds, max_execs=cap, horizon=60000)
     # the via-gateway itself is dead / stopped while it still has a proxied member
     for topo in ("via", "via2", "via+popen"):
